@@ -126,6 +126,8 @@ def check_write(case, rec):
         masks = ["nomask" if r["spec"]["mask"] is None else ("some" if any(r["spec"]["mask"]) else "allfalse") for r in case["results"]]
         sig = "write|%s|masks:%s" % ("+".join(sorted(set(r["spec"]["dtype"] for r in case["results"]))), "+".join(sorted(set(masks))))
         rec.label("write:n=%d" % len(arrays))
+        if any(abs(x) >= 99999 for r in case["results"] for x, m in zip(r["spec"]["data"], r["spec"]["mask"] or [0] * len(r["spec"]["data"])) if not m):
+            rec.label("valid_cell_equals_a_no_data_number")
         try:
             cmd.result
         except Exception as exc:
@@ -347,6 +349,13 @@ def write_cases(draw):
         else:
             data = draw(st.lists(st.integers(-4000, 4000).map(lambda v: v / 8.0), min_size=n, max_size=n))
         mask = draw(st.one_of(st.none(), st.none(), st.lists(st.sampled_from([0, 0, 1]), min_size=n, max_size=n)))
+        if draw(st.integers(0, 3)) == 0:
+            # valid cells holding a number that some layer of the software uses to stand for "no data": the fill value
+            # numpy gives masked arrays of this type, the NetCDF library's default fill of the type, the usual -9999
+            marks = {"float64": [1e20, 9.969209968386869e36, -9999.0], "float32": [float(numpy.float32(1e20)), float(numpy.float32(9.969209968386869e36)), -9999.0],
+                     "int64": [999999, -9223372036854775806, -9999], "int32": [999999, -2147483647, -9999]}[dtype]
+            for _ in range(draw(st.integers(1, 2))):
+                data[draw(st.integers(0, n - 1))] = draw(st.sampled_from(marks))
         results.append({"name": "R%d" % i, "spec": {"data": data, "mask": mask, "dtype": dtype}})
     return {"dims": dims, "results": results, "again": draw(st.integers(0, 3)),
             "crs": draw(st.sampled_from([None, None, None, "esri", "cf", "cf_dim", "dangling"]))}
